@@ -8,7 +8,6 @@ import (
 	"github.com/jsightapi/jsight-schema-core/errs"
 	"github.com/jsightapi/jsight-schema-core/internal/sync"
 	"github.com/jsightapi/jsight-schema-core/notations/jschema/ischema"
-	"github.com/jsightapi/jsight-schema-core/notations/jschema/ischema/constraint"
 )
 
 type exampleBuilder struct {
@@ -49,10 +48,6 @@ func (b *exampleBuilder) Build(node ischema.Node) ([]byte, error) {
 }
 
 func (b *exampleBuilder) buildExampleForObjectNode(node *ischema.ObjectNode) ([]byte, error) {
-	if node.Constraint(constraint.TypesListConstraintType) != nil {
-		return nil, errs.ErrUserTypeFound.F()
-	}
-
 	buf := exampleBufferPool.Get()
 	defer exampleBufferPool.Put(buf)
 
@@ -113,10 +108,6 @@ func (b *exampleBuilder) buildObjectKey(k ischema.ObjectNodeKey) ([]byte, error)
 }
 
 func (b *exampleBuilder) buildExampleForArrayNode(node *ischema.ArrayNode) ([]byte, error) {
-	if node.Constraint(constraint.TypesListConstraintType) != nil {
-		return nil, errs.ErrUserTypeFound.F()
-	}
-
 	buf := exampleBufferPool.Get()
 	defer exampleBufferPool.Put(buf)
 
@@ -196,10 +187,6 @@ func buildExampleForObjectNode(
 	node *ischema.ObjectNode,
 	types map[string]ischema.Type,
 ) ([]byte, error) {
-	if node.Constraint(constraint.TypesListConstraintType) != nil {
-		return nil, errs.ErrUserTypeFound.F()
-	}
-
 	b := exampleBufferPool.Get()
 	defer exampleBufferPool.Put(b)
 
@@ -230,10 +217,6 @@ func buildExampleForArrayNode(
 	node *ischema.ArrayNode,
 	types map[string]ischema.Type,
 ) ([]byte, error) {
-	if node.Constraint(constraint.TypesListConstraintType) != nil {
-		return nil, errs.ErrUserTypeFound.F()
-	}
-
 	b := exampleBufferPool.Get()
 	defer exampleBufferPool.Put(b)
 
